@@ -126,15 +126,9 @@ func TestVerifC12_groupscalars(t *testing.T) {
 			}
 		}
 		r.Count(c.name+".IsEqual", neq)
-		// SetBigInt with negative / wide integers, SetUint64
-		for i, v := range []*big.Int{big.NewInt(-1), new(big.Int).Neg(N), new(big.Int).Add(N, big.NewInt(1)), new(big.Int).Mul(N, N), new(big.Int).Neg(bf.Pseudo(c.name, 99, bf.Pow2(700))), new(big.Int).Lsh(N, 3)} {
-			z := c.g.NewScalar()
-			z.SetBigInt(new(big.Int).Set(v))
-			r.Eval(1)
-			cid := fmt.Sprintf("%s.SetBigInt#wide%d", c.name, i)
-			r.Distinct(cid)
-			f.Expect(r, "SetBigInt", "wide-or-negative", cid, z, v, true, new(big.Int).Abs(v))
-		}
+		// SetBigInt over the signed boundary ladder, each into a junk-filled receiver, against the Euclidean residue
+		f.CheckFromInt(r, "SetBigInt", uint(8*c.size), bf.SignedLadder(N, uint(N.BitLen()), c.name), true, func(z bf.Elem, v *big.Int) bool { e(z).SetBigInt(v); return true })
+		r.RequireCounter(c.name+".SetBigInt.from-int", 80)
 		for i, nn := range []uint64{0, 1, 2, 1<<32 - 1, 1 << 32, 1<<63 - 1, 1 << 63, ^uint64(0)} {
 			z := c.g.NewScalar()
 			z.SetUint64(nn)
